@@ -12,26 +12,26 @@ TB = ("Trusted: Coq 8.16.1 kernel and vm_compute (no native_compute); no axioms 
 
 # property -> (design section, technique, what the check gives when no full theorem is closed yet)
 P = {
- "C01": ("5/C01", "Coq model + UAX#9 spec in Gallina; partial proofs; judge C01_judge (spec levels) on real outputs; model/impl correspondence"),
- "C02": ("5/C02", "Coq theorem on compute_initial_info model vs Spec P1-P3/X5c; correspondence on InitialInfo/BidiInfo fields"),
- "C03": ("5/C03", "Coq theorem: reorder_levels model = Spec.l1 at unit granularity; correspondence on reordered_levels(_per_char)"),
- "C04": ("5/C04", "Coq theorem: reorder_visual model = Spec.l2, permutation, identity without odd levels; correspondence on level vectors"),
- "C05": ("5/C05", "Coq theorems on visual_runs model (partition, maximal, L2 order); correspondence on visual_runs + deprecated"),
- "C06": ("5/C06", "Coq theorems on reorder_line model; judge C06_judge on real outputs; correspondence"),
- "C07": ("5/C07", "panic-as-value Coq model: totality theorems per function; judge = no panic on any API call, all families"),
- "C08": ("5/C08", "Coq invariants (lengths, uniformity, bounds); judge C08_judge on stored and line levels"),
- "C09": ("5/C09", "one generic Coq model for both encodings + C18 theorem; paired judge C09_judge (UTF-16 case vs UTF-8 twin)"),
- "C10": ("5/C10", "Coq frame/independence lemmas; judge C10_judge (paragraph substrings, single-paragraph API)"),
- "C11": ("5/C11", "Coq invariants (levels <= 125/126), regenerated constants; judge on inputs that reach the limits"),
- "C12": ("5/C12", "parametricity of the Coq model in the data source; adversarial data sources through the judges"),
- "C13": ("5/C13", "Coq lemmas on the explicit stage; relational judge C13_judge on pairs of texts"),
- "C14": ("5/C14", "Coq theorems on the regenerated table (sorted, disjoint, bsearch = linear lookup, = reference); exhaustive tie over all scalars"),
- "C15": ("5/C15", "Coq theorems on the regenerated bracket table; exhaustive tie over all scalars"),
- "C16": ("5/C16", "Coq theorem: get_base_direction model = Spec P2/P3; correspondence on 4 entry points x 2 encodings"),
- "C17": ("5/C17", "Coq theorems on para_direction/level_at/has_rtl models; judge C17_judge"),
- "C18": ("5/C18", "Coq theorems: char_at/iterators = lossy decoding, all next/next_back interleavings; correspondence incl. exhaustive small programs"),
- "C19": ("5/C19", "Coq theorems by lia over all nat arguments; exhaustive tie over the whole u8 domain in debug and release"),
- "C20": ("5/C20", "correspondence across five feature builds (byte-identical outputs) + serde round trip; no theorem can quantify over cargo features"),
+ "C01": ("5/C01", "Rocq/Coq proof: stage-by-stage agreement of the executable model with a Gallina specification of UAX#9 (X1-X8, BD7, BD13/X10, W1-W7, BD16/N0-N2, I1/I2) at character level + length independence; open stages decided by the extracted judge C01_judge on the real crate's outputs; model tied to /repo by differential correspondence"),
+ "C02": ("5/C02", "Rocq/Coq proof: compute_initial_info model = Spec P1-P3/X5c for every text and encoding, judge-form theorem C02_final; differential correspondence on InitialInfo/BidiInfo/ParagraphBidiInfo fields"),
+ "C03": ("5/C03", "Rocq/Coq proof: reordered_levels(_per_char) model = Spec.l1 inside the line, unchanged outside, every encoding (C03_final); differential correspondence on reordered_levels(_per_char)"),
+ "C04": ("5/C04", "Rocq/Coq proof: reorder_visual model = Spec.l2, permutation, identity without odd levels, for all level vectors; differential correspondence on level vectors"),
+ "C05": ("5/C05", "Rocq/Coq proof: visual_runs model partitions the line into maximal level runs in L2 order, deprecated variant equal, for all level vectors and lines; differential correspondence on visual_runs + deprecated"),
+ "C06": ("5/C06", "Rocq/Coq proof: reorder_line model = the line's characters permuted by L2 of the L1 levels, every encoding incl. ill-formed UTF-16 (C06_final, LL_reorder_line2); differential correspondence"),
+ "C07": ("5/C07", "Rocq/Coq proof over a panic-as-value model: every API function returns Ok on every valid case (C07_final); judge = no API call of the real crate panicked, all generator families"),
+ "C08": ("5/C08", "Rocq/Coq proof: vectors are per-code-unit expansions of the character-level analysis (length independence), levels within [paragraph level,126] (C08_final); judge on stored and line levels"),
+ "C09": ("5/C09", "Rocq/Coq proof: one generic model for both encodings, length independence of every stage and line query, C18 ([u16] access = lossy decoding); paired judge C09_judge on every UTF-16 case and its UTF-8 twin"),
+ "C10": ("5/C10", "Rocq/Coq proof: paragraph independence of the scanner and the per-paragraph pipeline, single-paragraph type agrees (C10_statement, C10_final); judge on paragraph substrings and both analysis types"),
+ "C11": ("5/C11", "Rocq/Coq proof: explicit levels <= 125 and = X1-X8 with overflow counters at any depth, resolved levels <= 126, BD16 with the 63 limit; regenerated constants; judge on inputs that reach the limits"),
+ "C12": ("5/C12", "Rocq/Coq proof: extensionality of the model in the data source, length independence, every stage theorem for an arbitrary data source; adversarial data sources through the judges"),
+ "C13": ("5/C13", "Rocq/Coq proof about the specification (paragraph level and X1-X8 outside a matched isolate unchanged); relational judge C13_judge on pairs of texts for the W/N part"),
+ "C14": ("5/C14", "Rocq/Coq proof on the table regenerated from tables.rs on every run: sorted, disjoint, halving search = linear lookup, equal to the committed UCD 16.0 reference on every code point; exhaustive tie over all scalars through the public API"),
+ "C15": ("5/C15", "Rocq/Coq proof on the regenerated bracket table: structure and equality with the committed reference on every code point; exhaustive tie over all scalars through the public trait method"),
+ "C16": ("5/C16", "Rocq/Coq proof: get_base_direction model = Spec P2/P3, agrees with the analysis (C16_final); differential correspondence on 4 entry points x 2 encodings"),
+ "C17": ("5/C17", "Rocq/Coq proof: direction / level_at / has_rtl models consistent with the levels (C17_final); judge C17_judge"),
+ "C18": ("5/C18", "Rocq/Coq proof: char_at/iterators = lossy decoding, all next/next_back interleavings = ideal deque; differential correspondence incl. exhaustive small programs"),
+ "C19": ("5/C19", "Rocq/Coq proof by lia over all nat arguments; exhaustive tie over the whole u8 domain in debug and release builds"),
+ "C20": ("5/C20", "differential correspondence across five feature builds (byte-identical outputs, default build tied to the Coq model) + serde round trip; no theorem can quantify over cargo features"),
 }
 
 checks = []
@@ -75,7 +75,7 @@ m = {
               "kind_free_text": "Coq 8.16.1 development (model of the code, UAX#9 spec, judges, theorems) + translator for data + differential correspondence between the real crate and the extracted model"}],
  "checks": checks,
  "not_applicable": [],
- "notes": "All eight defects found on the pinned tree were repaired by fix: commits in /repo (known_findings.txt). The public API suffices for every observation; no hook is currently needed.",
+ "notes": "All eleven defects found on the pinned tree (D1-D11) were repaired by fix: commits in /repo (known_findings.txt). The public API suffices for every observation; no hook is needed (hooks.source_commits is empty).",
 }
 json.dump(m, open(os.path.join(ROOT, "MANIFEST.json"), "w"), indent=1)
 print("MANIFEST.json written:", {c["property_id"]: c["level_claimed"]["category"] for c in checks})
